@@ -11,6 +11,26 @@ pub struct Transport {
 	pub playing: bool,
 }
 
+/// Converts a loop region to frames. An empty or inverted region cannot be
+/// looped over (the wrap-around loops below need `loop_end > loop_start`
+/// to terminate), so it is treated as no loop region.
+fn loop_region_in_samples(
+	loop_region: Option<Region>,
+	sample_rate: u32,
+	num_frames: usize,
+) -> Option<(usize, usize)> {
+	loop_region
+		.map(|loop_region| {
+			let loop_start = loop_region.start.into_samples(sample_rate);
+			let loop_end = match loop_region.end {
+				EndPosition::EndOfAudio => num_frames,
+				EndPosition::Custom(end_position) => end_position.into_samples(sample_rate),
+			};
+			(loop_start, loop_end)
+		})
+		.filter(|(loop_start, loop_end)| loop_end > loop_start)
+}
+
 impl Transport {
 	#[must_use]
 	pub fn new(
@@ -20,14 +40,7 @@ impl Transport {
 		sample_rate: u32,
 		num_frames: usize,
 	) -> Self {
-		let loop_region = loop_region.map(|loop_region| {
-			let loop_start = loop_region.start.into_samples(sample_rate);
-			let loop_end = match loop_region.end {
-				EndPosition::EndOfAudio => num_frames,
-				EndPosition::Custom(end_position) => end_position.into_samples(sample_rate),
-			};
-			(loop_start, loop_end)
-		});
+		let loop_region = loop_region_in_samples(loop_region, sample_rate, num_frames);
 		Self {
 			position: if reverse {
 				num_frames - 1 - start_position
@@ -45,14 +58,7 @@ impl Transport {
 		sample_rate: u32,
 		num_frames: usize,
 	) {
-		self.loop_region = loop_region.map(|loop_region| {
-			let loop_start = loop_region.start.into_samples(sample_rate);
-			let loop_end = match loop_region.end {
-				EndPosition::EndOfAudio => num_frames,
-				EndPosition::Custom(end_position) => end_position.into_samples(sample_rate),
-			};
-			(loop_start, loop_end)
-		});
+		self.loop_region = loop_region_in_samples(loop_region, sample_rate, num_frames);
 	}
 
 	pub fn increment_position(&mut self, num_frames: usize) {
